@@ -118,6 +118,16 @@ def h_formatters(sx):
                         raise RuntimeError("feature cleanup")
                 context.add_cleanup(cleanup)
         extra = {"hooks": True, "fault": False, "hook_probe": probe}
+    if p.get("hook_skip"):
+        def probe(w, name, context, args):       # noqa: F811
+            # a before_scenario hook that excludes the k-th scenario at run time (k symbolic)
+            if name == "before_scenario":
+                n = getattr(w, "_bs_calls", 0)
+                w._bs_calls = n + 1
+                if w.sx.int("hook_skips_scenario") == n:
+                    w.events.append(("hook-skip", n))
+                    context.scenario.skip()
+        extra = {"hooks": True, "fault": False, "hook_probe": probe}
     w, flags = build_world(sx, extra)
     w.config.show_skipped = sx.bool("show_skipped")
     w.config.show_timings = False
@@ -269,11 +279,12 @@ def jobs(tier, seed):
         "outline": ([F([O(1, [(2, ["e"])], tags=["o"]), S(1)], tags=["f"])], {"out_dom": D, "stop": "sym"}),
         "2feat-select": ([F([S(1), S(1)]), F([S(1)])], {"out_dom": {"*": [0, 1]}, "select": True}),
         "feature-cleanup": ([F([S(1)]), F([S(1)])], {"out_dom": {"*": [0, 1]}}),
+        "hook-skip": ([F([S(1), S(2), R([S(1)], bg=1)])], {"out_dom": {"*": [0, 1]}, "undef": False}),
     }
     if tier == "thorough":
         shapes.update({"3sc": ([F([S(2), S(2), S(1)])], {"out_dom": {"*": [0, 5]}, "stop": "sym", "dry_run": "sym"}),
                        "rule-outline": ([F([S(1), R([O(1, [(2, [])]), S(1)], bg=1)])], {"out_dom": D})})
     for name, (sh, opts) in shapes.items():
-        js.append(Job("fmt.%s" % name, "props.c15:h_formatters", {"shapes": sh, "opts": opts, "feature_cleanup": name == "feature-cleanup"},
+        js.append(Job("fmt.%s" % name, "props.c15:h_formatters", {"shapes": sh, "opts": opts, "feature_cleanup": name == "feature-cleanup", "hook_skip": name == "hook-skip"},
                       reach=REACH if name != "2feat-select" else REACH[:3], min_paths=20, cost=100, validate=40))
     return js
